@@ -405,6 +405,8 @@ func planC01(tier string, seed uint64) *Plan {
 	}
 	groups := randomPlan("c01_pub", seed, uiCfgs(seed, n, nil), jobs, count, "stub")
 	groups = append(groups, randomPlan("ui_hostile", seed+5, uiCfgs(seed+5, n, nil), jobs, count/5, "stub")...)
+	// servitor's real main(): what it prints itself (a failed start-up command, after leaving raw mode) is terminal output too
+	groups = append(groups, randomPlan("ui_main", seed+7, uiCfgs(seed+7, n, nil), jobs, count/5, "stub")...)
 	p.Phases = []Phase{{Name: "hostile-content", Groups: groups}}
 	return p
 }
